@@ -1,9 +1,10 @@
 (* C03 — Cursor results depend only on content and logical position, not on history.
-   Statements only.  Proved so far: the structural part (a cursor is a function of its state; reset
-   forgets everything; the file is consulted only through the loader).  The refinement of
-   Reader.cstep to the abstract cursor Spec.aspec over all reachable states (DESIGN 4, backbone R) is
-   proved on the abstract level-sequence model of design-notes/Chain_probe.v and validated here by
-   state-level correspondence (results, block loads and cached-block fingerprints after every step). *)
+   Statements only.  The structural part (a cursor is a function of its state; reset forgets everything;
+   the file is consulted only through the loader), the in-block moves as index moves, and the refinement
+   of Reader.cstep to the abstract cursor Spec.aspec over all reachable states (C03_step, C03_history:
+   backbone R, proofs/ReaderRefine.v), composed with the writer invariant for written files
+   (C03_written_file_history).  The state-level correspondence compares results, block loads and
+   cached-block fingerprints after every step. *)
 From Grenad.model Require Import Base Block Reader Spec.
 From Grenad.proofs Require Import ReaderBasics.
 
